@@ -52,7 +52,7 @@ ZParseDemands(e, r) ==
     <<"P.accept",     IsOk(r) => e.ok>>,
     <<"P.value",      (IsOk(r) /\ e.ok) => e.v = r.v>>,
     <<"P.reject",     IsFail(r) => ~e.ok>>,
-    <<"P.zero",       (~e.ok /\ ~e.panic) => e.v = BZero>>,
+    <<"X.zero",       (~e.ok /\ ~e.panic) => e.v = BZero>>,            \* the properties do not fix the value returned with an error
     <<"P.sentinel",   (IsFail(r) /\ ~e.ok /\ ~e.panic /\ r.req # {"ErrInputTooLong"}) => SentinelsOK(r, e.is)>>,
     <<"C18.toolong",  (IsFail(r) /\ ~e.ok /\ ~e.panic /\ r.req = {"ErrInputTooLong"}) => SentinelsOK(r, e.is)>>,
     <<"C18.noecho",   (IsFail(r) /\ r.req = {"ErrInputTooLong"}) => ~e.echo>>
@@ -64,7 +64,8 @@ NewDemands(e) ==
   LET r == NewSizeRef(e.cls, e.digits, e.unit) IN
   <<
     <<"C08.new_ok",    IsOk(r) => (e.ok /\ e.v = r.v)>>,
-    <<"C08.new_fail",  IsFail(r) => (~e.ok /\ e.v = BZero)>>,
+    <<"C08.new_fail",  IsFail(r) => ~e.ok>>,
+    <<"X.new_zero",    ~e.ok => e.v = BZero>>,
     <<"C18.nopanic",   ~e.panic>>
   >>
 
@@ -73,7 +74,7 @@ BytesDemands(e) ==
   <<
     <<"C08.bytes_ok",    e.ok = rep>>,
     <<"C08.bytes_value", e.ok => e.v = e.n>>,
-    <<"C08.bytes_zero",  ~e.ok => e.v = BZero>>
+    <<"X.bytes_zero",    ~e.ok => e.v = BZero>>
   >>
 
 KindDemands(e) ==
